@@ -1,4 +1,5 @@
 import GoLevel.Model.RefLoop
+import GoLevel.Model.Session
 /-! Line-protocol handler for the reference loop (C07).  Stateful.
 
 ```
@@ -9,7 +10,16 @@ ref l <vid> <file>*                         ⇒ removed     (f.rel)
 ref a <id>                                  ⇒ removed     (f.abandon)
 ref x <vid>                                 ⇒ removed     (the task of vid is older than maxCachedTime)
 ref q                                       ⇒ <file>:<count>,… ascending, `-` when empty   (VerifFileRefs)
+ref v <oldvid> <nOld> <old>* <nNew> <new>* <nAdded> <recAdded>* <recDeleted>*
+                                            ⇒ <oldvid> <n> <added>* <deleted>* <class>     (v.install)
 ```
+`ref v` is the PRODUCER check: `old`/`new` = the tables of the superseded and of the installed version,
+`recAdded`/`recDeleted` = the table numbers of the record handed to `setVersion`; the answer is the delta the
+producer model computes (`Session.mkDelta`: each added table once) and how it relates to the two versions:
+`exact` (net-exact for the versions and for the loop's view), `viewexact` (exact only relative to the loop's
+view, which was smaller than the superseded version: the first commit after a recovery), `under` (the view stays
+smaller than the installed version: `session.recover`'s empty delta), `BAD` otherwise.  The harness prints the
+delta the real `setVersion` sent and its own classification.
 `removed` = the table numbers passed to `tOps.remove` while handling the message and in the `processTasks()`
 that follows, in order, blank separated, `-` when none; `panic` when the loop would panic. -/
 namespace GoLevel.Driver
@@ -18,6 +28,33 @@ open GoLevel GoLevel.RefLoop
 structure RefSt where
   s : State := State.init
   dead : Bool := false
+  /-- the loop's view of the current version according to the producer model (sum of the deltas) -/
+  view : List Nat := []
+
+/-- `NetExact old d new`, decided -/
+def netExactB (old : List Nat) (d : Delta) (new : List Nat) : Bool :=
+  decide d.added.Nodup && decide d.deleted.Nodup && d.deleted.all (fun r => decide (r ∈ old)) &&
+  (old ++ new ++ d.added).all (fun f =>
+    (if f ∈ new then 1 else 0) + (if f ∈ d.deleted then 1 else 0) ==
+      (if f ∈ old then 1 else 0) + (if f ∈ d.added then 1 else 0))
+
+/-- the view after a delta (a multiset): `none` when a deleted table is not in it -/
+def applyView (view : List Nat) (d : Delta) : Option (List Nat) :=
+  let v1 := view ++ d.added
+  if d.deleted.all (fun r => decide (r ∈ v1)) then some (d.deleted.foldl (fun l r => l.erase r) v1) else none
+
+def producerCheck (view old new recAdded recDeleted : List Nat) : Delta × Option (List Nat) × String :=
+  let dummy (n : Nat) : Table := ⟨n, 0, [], ⟨[], 0⟩, ⟨[], 0⟩⟩
+  let d := Session.mkDelta ⟨recDeleted.map (fun n => (0, n)), recAdded.map (fun n => (0, dummy n))⟩
+  let v' := applyView view d
+  let cls :=
+    match v' with
+    | none => "BAD"
+    | some x =>
+      let sameSet := x.all (fun f => decide (f ∈ new)) && new.all (fun f => decide (f ∈ x)) && decide x.Nodup
+      if sameSet then (if netExactB old d new then "exact" else "viewexact")
+      else if x.all (fun f => decide (f ∈ new)) && decide x.Nodup then "under" else "BAD"
+  (d, v', cls)
 
 def showRemoved (l : List Nat) : String :=
   if l.isEmpty then "-" else " ".intercalate (l.map toString)
@@ -52,6 +89,23 @@ def handleRef (st : RefSt) : List String → Option (RefSt × String)
   | ["x", vid] => do
     let vid ← vid.toNat?
     pure (refMsg st (.expire vid))
+  | "v" :: oldvid :: rest => do
+    let oldvid ← oldvid.toNat?; let xs ← natsOf rest
+    let nOld ← xs[0]?
+    let old := (xs.drop 1).take nOld
+    let r1 := xs.drop (1 + nOld)
+    let nNew ← r1[0]?
+    let new := (r1.drop 1).take nNew
+    let r2 := r1.drop (1 + nNew)
+    let nAdd ← r2[0]?
+    let recAdded := (r2.drop 1).take nAdd
+    let recDeleted := r2.drop (1 + nAdd)
+    if old.length != nOld || new.length != nNew || recAdded.length != nAdd then none
+    else
+      let (d, v', cls) := producerCheck st.view old new recAdded recDeleted
+      let nums (l : List Nat) := " ".intercalate (l.map toString)
+      let out := " ".intercalate (([toString oldvid, toString d.added.length, nums d.added, nums d.deleted, cls]).filter (· != ""))
+      pure ({ st with view := v'.getD new }, out)
   | ["q"] =>
     let sorted := st.s.fileRef.mergeSort (· ≤ ·)
     let keys := dedupSorted sorted
